@@ -20,8 +20,8 @@ the kept examples K (supplied, not discarded by None / remove_empties):
   unique     no r occurs twice
   count      len(R) <= number of distinct elements of K   (so R == [] when K
              is empty: clause `none-for-empty-input`)
-  tag        R(tag=True) and R(tag=False) have the same length and, position
-             by position, match exactly the same supplied strings
+  tag        R(tag=True) and R(tag=False) have the same length and together
+             match exactly the same supplied strings (also under pruning)
 Nothing is demanded about WHICH examples survive pruning, nor that
 len(R) <= max_patterns (not part of the statement).
 
@@ -91,7 +91,19 @@ class C13(RexDriver):
               'within 2 deviations, tag off/on'),
              ('sampled', 'E2: sets of 3-5 from the 8-string pool x 8 Size '
               'settings x pruning points, every random.sample answer, tagged '
-              'run replaying the same answers')]
+              'run replaying the same answers'),
+             ('families', 'structured families: 2-4 strings of one shape '
+              '(1-3 fragments over 7 character classes) whose run lengths '
+              '{0,1,2,3,4,6} differ in one fragment or in all x '
+              'variableLengthFrags off/on x extra letters none/_-. , tag '
+              'off/on'),
+             ('ties', 'two-shape quadruples and pairs of equal frequency '
+              '(both orders) and two-shape sets differing in one fragment '
+              'class x {default, max_patterns 1, 2, min_strings_per_pattern '
+              '2} x variableLengthFrags off/on, tag off/on'),
+             ('refine', 'E2: sets of 4-6 from the class-refinement pools x 8 '
+              'Size settings x {default, max_patterns=1}, tagged run '
+              'replaying the same answers')]
         if tier == 'thorough':
             L += [('t-n1-wide', 'singles over Sigma_t (L<=2) and Sigma_q '
                    '(L=3) x 152 points [hash seed 0 only]'),
@@ -147,6 +159,24 @@ class C13(RexDriver):
             for c in self.sampled13(A.SAMPLED_POOL_Q, (3, 4), (5,),
                                     A.SIZE_SETTINGS('quick')):
                 yield c
+        elif layer == 'families':
+            for xs in A.family_sets(tier):
+                yield {'ex': xs, 'pts': 'family', 'forms': 'list'}
+        elif layer == 'ties':
+            for xs in A.tie_sets(tier):
+                yield {'ex': xs, 'pts': 'prune-vlf', 'forms': 'list'}
+            for xs in A.two_shape_sets(tier):
+                yield {'ex': xs, 'pts': 'prune-vlf', 'forms': 'list'}
+        elif layer == 'refine':
+            for (name, pool, sizes, kw) in A.REFINE_POOLS:
+                for n in sizes:
+                    if n > 6:
+                        continue
+                    for xs in A.example_sets(pool, n):
+                        for st in A.SIZE_SETTINGS('quick'):
+                            for p in ({}, {'max_patterns': 1}):
+                                yield {'ex': xs, 'size': st, 'seed': None,
+                                       'prune': dict(p, **kw)}
         elif layer == 't-n1-wide':
             seen = set(self.pool_q())
             for s in (A.strings_upto(A.SIGMA_T, 2)
@@ -218,6 +248,16 @@ class C13(RexDriver):
             opts = [o for o in allpts if A.n_deviations(o, ax) > 2]
         elif name == 'only2':
             opts = [o for o in allpts if A.n_deviations(o, ax) == 2]
+        elif name == 'family':
+            opts = [o for o in allpts if prune_dev(o) == 0
+                    and not o['strip'] and not o['remove_empties']
+                    and o['dialect'] == 'portable'
+                    and o['extra_letters'] in (None, '_-.')]
+        elif name == 'prune-vlf':
+            opts = [o for o in allpts if prune_dev(o) <= 1
+                    and not o['strip'] and not o['remove_empties']
+                    and o['dialect'] == 'portable'
+                    and o['extra_letters'] is None]
         elif name == 'prune':
             opts = [o for o in allpts if A.n_deviations(o, ax) <= 1
                     and (prune_dev(o) == 1 or A.n_deviations(o, ax) == 0)]
@@ -265,14 +305,19 @@ class C13(RexDriver):
         return bad
 
     def tag_clause(self, rexF, rexT, supplied):
+        """Tagging changes only the grouping: the same number of expressions
+        and exactly the same supplied strings matched (by any expression) -
+        the statement does not demand a position-by-position correspondence."""
         probes = [s for s in supplied if s is not None]
         if len(rexF) != len(rexT):
             return [('tag-length', 'tag-only-grouping',
                      {'untagged': rexF, 'tagged': rexT})]
-        for (i, (a, b)) in enumerate(zip(rexF, rexT)):
-            if M.match_vector(a, probes) != M.match_vector(b, probes):
-                return [('tag-matches', 'tag-only-grouping',
-                         {'index': i, 'untagged': a, 'tagged': b})]
+        mF = [s for s in probes if any(M.fullmatch(r, s) for r in rexF)]
+        mT = [s for s in probes if any(M.fullmatch(r, s) for r in rexT)]
+        if mF != mT:
+            return [('tag-matches', 'tag-only-grouping',
+                     {'untagged': rexF, 'tagged': rexT,
+                      'matched_untagged': mF, 'matched_tagged': mT})]
         return []
 
     def evaluate(self, R, supplied, form, opts):
